@@ -5,6 +5,7 @@ import (
 	"fmt"
 	"os"
 	"sort"
+	"strings"
 
 	"github.com/openziti/storage/boltz"
 	"go.etcd.io/bbolt"
@@ -30,7 +31,11 @@ type Op struct {
 }
 
 func (o Op) String() string {
-	return fmt.Sprintf("%s(%s,%q,v=%v,cv=%v,f=%v,o=%q,n=%d)->%s", o.Kind, o.Store, o.Id, o.V, o.CV, o.Fields, o.Others, o.N, o.Exp)
+	s := fmt.Sprintf("%s(%s,%q,v=%v,cv=%v,f=%v,o=%q,n=%d)->%s", o.Kind, o.Store, o.Id, o.V, o.CV, o.Fields, o.Others, o.N, o.Exp)
+	if len(s) > 600 {
+		s = strings.ReplaceAll(s, hugeValue, "<40000 x h>")
+	}
+	return s
 }
 
 // Engine owns one database, the stores, and the reference model.
@@ -351,6 +356,8 @@ func (e *Engine) Resync() {
 
 // ---------- generation ----------
 
+var hugeValue = strings.Repeat("h", 40000)
+
 func pickVal(r *core.Rand, pool []string, pNull, pEmpty float64) any {
 	x := r.Float()
 	if x < pNull {
@@ -440,6 +447,12 @@ func (e *Engine) genEmpV(r *core.Rand, m *Model, hostile bool) map[string]any {
 	}
 	if r.P(0.2) && len(roles) > 0 {
 		roles = append(roles, roles[0]) // duplicate
+	}
+	if r.P(pBad / 2) {
+		roles = append(roles, hugeValue) // unusable key: too large for a bucket name / list entry key
+	}
+	if r.P(pBad / 2) {
+		v["name"] = hugeValue // too large for an index key
 	}
 	v["roles"] = core.Shuffle(r, roles)
 	// dept
